@@ -58,8 +58,6 @@ package setec
 //@   ensures [C16 lookup.gate] (!old(has(s.active.m, name)) && !s.allowLookup) ==> (sec == nil && err != nil && net == old(net) && sameEntries(s))
 //@   ensures [C16 lookup.known-no-request] old(has(s.active.m, name)) ==> (sec != nil && err == nil && net == old(net) && sameEntries(s))
 //@   ensures [C12 lookup.inv] storeInv(s) && !s.active.Mutex && handlesKept(s)
-//@ func NewStore(ctx, cfg) (s, err)
-//@   ensures true
 //@ func (*Store).run(s, ctx, interval, done)
 //@   ensures true
 //@ func (*Store).Refresh(s, ctx) (err)
@@ -252,3 +250,35 @@ package setec
 //@   ensures [C20 secrets.names] len(out) == len(f.fields) && (forall i int :: (0 <= i && i < len(f.fields)) ==> out[i] == pathJoin2(f.prefix, f.fields[i].secretName))
 //@   loop 0
 //@     invariant [named] (forall i int :: (0 <= i && i < iter) ==> out[i] == pathJoin2(f.prefix, f.fields[i].secretName)) && len(out) == len(f.fields) && iter <= len(f.fields)
+
+// small configuration helpers (given contracts so that NewStore does not branch on them)
+//@ func (StoreConfig).logger(c) (r)
+//@   ensures [C10 cfg.logger] r != nil
+//@ func (StoreConfig).pollInterval(c) (r)
+//@   ensures [C11 cfg.poll-interval] r == ite(c.PollInterval == 0, 3600000000000, c.PollInterval)
+//@ func (StoreConfig).cache(c) (r)
+//@   ensures [C13 cfg.cache] r == c.Cache
+//@ func (StoreConfig).newTicker(c) (r)
+//@   ensures [C11 cfg.ticker] r != nil
+//@ func (StoreConfig).timeNow(c) (r)
+//@   ensures [C19 cfg.timenow] r != nil
+//@ func (*Store).loadCache(s) (data, err)
+//@   requires s != nil
+//@   ensures [C13 loadcache.noeffect] net == old(net) && cacheWrites == old(cacheWrites) && (s.cache == nil ==> (err == nil && len(data) == 0))
+
+//@ func NewStore(ctx, cfg) (s, err)
+//@   requires ctx != nil
+//@   ensures [C10 newstore.no-client] cfg.Client == nil ==> (err != nil && s == nil && net == old(net))
+//@   ensures [C10 newstore.no-secrets] (cfg.Client != nil && len(cfg.Secrets) == 0 && len(cfg.Structs) == 0 && !cfg.AllowLookup) ==> (err != nil && s == nil && net == old(net))
+//@   ensures [C10 newstore.fail] err != nil ==> s == nil
+//@   ensures [C10,C12 newstore.inv] err == nil ==> (s != nil && storeInv(s) && !s.active.Mutex && s.client == cfg.Client && s.allowLookup == cfg.AllowLookup && s.expiryAge == cfg.ExpiryAge)
+//@   ensures [C10 newstore.all-listed-have-values] err == nil ==> (forall i int :: (0 <= i && i < len(cfg.Secrets)) ==> (has(s.active.m, cfg.Secrets[i]) && s.active.m[cfg.Secrets[i]].Declared))
+//@   loop 0
+//@     invariant [state] s != nil && allocated(s) && s.active.m != nil && allocated(s.active.m) && s.active.f != nil && s.active.w != nil && allocated(s.active.f) && allocated(s.active.w) &&
+//@        s.timeNow != nil && s.logf != nil && s.client == cfg.Client && cfg.Client != nil && !s.active.Mutex && s.allowLookup == cfg.AllowLookup && s.expiryAge == cfg.ExpiryAge && ctx != nil
+//@     invariant [handles-empty] (forall n string :: !has(s.active.f, n)) && (forall n string :: !has(s.active.w, n))
+//@     invariant [entries] forall n string :: (has(s.active.m, n) && s.active.m[n] != nil) ==> (allocated(s.active.m[n]) && s.active.m[n].Secret != nil && allocated(s.active.m[n].Secret))
+//@     invariant [sep] forall n string, k string :: (has(s.active.m, n) && has(s.active.m, k) && n != k && s.active.m[n] != nil) ==> s.active.m[n] != s.active.m[k]
+//@     invariant [names] (forall j int :: (0 <= j && j < len(secrets)) ==> secrets[j] != "") && (forall i int, j int :: (0 <= i && i < j && j < len(secrets)) ==> secrets[i] != secrets[j]) &&
+//@        (forall i int :: (0 <= i && i < len(cfg.Secrets)) ==> (exists j int :: 0 <= j && j < len(secrets) && secrets[j] == cfg.Secrets[i]))
+//@     invariant [done] forall j int :: (0 <= j && j < iter) ==> (has(s.active.m, secrets[j]) && (s.active.m[secrets[j]] != nil ==> s.active.m[secrets[j]].Declared))
